@@ -342,10 +342,13 @@ pub fn build_object(idx: usize, o: &Value, default_oti: &Oti, tick_us: u64) -> R
     } else {
         String::new()
     };
+    let fake_len: Option<u64> = o.get("fake_len_hex").and_then(|x| x.as_str()).map(|h| u64::from_str_radix(h, 16).unwrap());
     let small_l = if transfer_length < (1u64 << 31) { transfer_length as i64 } else { -1 };
     let info = json!({
         "o": idx, "q": jopt_i(o, "q", 0), "L": small_l, "Lx": format!("{:x}", transfer_length),
-        "clen": content.len(), "E": eff_oti.encoding_symbol_length, "B": eff_oti.maximum_source_block_length,
+        "clen": match fake_len { Some(f) if f >= (1u64 << 31) => -1, Some(f) => f as i64, None => content.len() as i64 },
+        "clenx": format!("{:x}", fake_len.unwrap_or(content.len() as u64)),
+        "E": eff_oti.encoding_symbol_length, "B": eff_oti.maximum_source_block_length,
         "par": par, "scheme": eff_oti.fec_encoding_id as u8, "fti": eff_oti.inband_fti,
         "own_oti": oti_override.is_some(),
         "cenc": cenc_num(cenc), "icenc": jopt_b(o, "icenc", false),
